@@ -185,7 +185,8 @@ def run(pm, ctx):
             for x in [n.left] + n.comparators:
                 if isinstance(x, ast.Constant) and isinstance(x.value, str):
                     handled.add(x.value)
-    extra = sorted(handled - set(names))
+    # a string the function compares with is only "handled" if calling the function with it builds an objective
+    extra = sorted(x for x in handled - set(names) if isinstance(registry_eval(pm, x), Obj))
     if extra:
         ctx.violation("C01-a", u.relpath, "_str_to_gemini", f"names {extra}", f"{extra} are handled by _str_to_gemini but not offered in AVAILABLE_GEMINIS", line=f.lineno,
                       site="handled-but-unlisted")
